@@ -103,11 +103,28 @@ func (r *histRunner) doGCPark(op *Op) error {
 	r.gcPasses++
 	r.afterAnyGCPass()
 	r.label("gc")
+	groupsWrittenThisPass := map[int]bool{}
+	writesInPass := 0              // client records written while the pass is under way (each is one hint item of the head file)
+	unknownGroups := map[int]int{} // collision groups (index) written to during the pass while the collision table did not know them -> writer
 	for running := true; running; {
 		select {
 		case req := <-parked:
 			pl := &op.Places[req.idx]
 			r.label("parked:" + pl.Point)
+			if pl.Point != "gc.pass.enter" && bkt.hints.maxDumpableChunkID != end-1 {
+				// gc.go BeforeBucket: "hold all new SETs in hint buffers" - the dumper must not touch files at or above the end of
+				// the range while the pass is under way (GC finds keys written during the pass through those buffers)
+				close(req.resume)
+				for drained := false; !drained; {
+					select {
+					case q := <-parked:
+						close(q.resume)
+					case <-done:
+						drained = true
+					}
+				}
+				return fmt.Errorf("while GC [%d,%d] is parked at %s: the hint dumper's limit is file %d, not %d: hints of keys written during the pass can leave memory", begin, end, pl.Point, bkt.hints.maxDumpableChunkID, end-1)
+			}
 			if pl.Cancel {
 				r.store.CancelGC(bid)
 				r.label("gc_cancelled")
@@ -117,7 +134,38 @@ func (r *histRunner) doGCPark(op *Op) error {
 				var e error
 				switch cop.Kind {
 				case "set":
+					if r.opts.collisions && r.inGrp[cop.K] && op.Merge {
+						for gi, g := range r.h.Cfg.Groups {
+							for _, k := range g {
+								if k == cop.K && !groupsWrittenThisPass[gi] {
+									groupsWrittenThisPass[gi] = true
+									r.passesWithGroupWrite[gi]++
+									if r.passesWithGroupWrite[gi] >= 2 && verifkit.Known("C05-repeated-sibling-writes-across-passes") {
+										// known finding (mechanism not isolated): a key of a collision group written by a client during
+										// a merge pass, and again during a later merge pass: another key of the group may lose its records
+										for _, k2 := range g {
+											if k2 != cop.K && r.model[k2].State != stAbsent {
+												r.staleOK[k2] = "C05-sibling-hint-dumped-during-pass" // same tolerated outcomes
+												r.excluded["C05-repeated-sibling-writes-across-passes"]++
+											}
+										}
+									}
+								}
+							}
+						}
+					}
 					first := r.inGrp[cop.K] && r.model[cop.K].State == stAbsent
+					if r.opts.collisions && r.inGrp[cop.K] && op.Merge {
+						if _, known := bkt.hints.collisions.get(getKeyHash(r.h.Cfg.Keys[cop.K]), string(r.h.Cfg.Keys[cop.K])); !known {
+							for gi, g := range r.h.Cfg.Groups {
+								for _, k := range g {
+									if k == cop.K {
+										unknownGroups[gi] = cop.K
+									}
+								}
+							}
+						}
+					}
 					e = r.doSet(cop)
 					if e == nil && first && r.opts.collisions && verifkit.Known("C05-guess-after-sibling-first-write") {
 						// known finding: once a sibling of an undetected collision group is written for the first time during a pass,
@@ -163,6 +211,23 @@ func (r *histRunner) doGCPark(op *Op) error {
 					}
 				default:
 					continue
+				}
+				if e == nil && cop.Kind != "get" && cop.Kind != "dumphints" {
+					writesInPass++
+				}
+				if writesInPass >= int(r.h.Cfg.SplitCap) && verifkit.Known("C05-sibling-hint-dumped-during-pass") {
+					// known finding: the merge pass relies on the hints of keys written during the pass staying in memory
+					// ("hold all new SETs in hint buffers so collision will be found ... in hint buffer"), but a hint split of the
+					// head file that fills up during the pass is dumped all the same; a key of a not yet detected collision
+					// group written before that is then invisible to GC, which discards its siblings' records as superseded
+					for gi, writer := range unknownGroups {
+						for _, k := range r.h.Cfg.Groups[gi] {
+							if k != writer && r.model[k].State != stAbsent {
+								r.staleOK[k] = "C05-sibling-hint-dumped-during-pass"
+							}
+						}
+						delete(unknownGroups, gi)
+					}
 				}
 				if e == nil && cop.Kind != "get" {
 					r.clientWritesInGC++
@@ -285,6 +350,11 @@ var c05GCCollide = &histCheck{
 		p.noExplicit = true
 		p.postCfg = func(t *rapid.T, c *Cfg) {
 			c.SplitCap = rapid.SampledFrom([]int64{2, 2, 3, 5, 16}).Draw(t, "splitcap_c05") // dumper rounds find full splits
+			if verifkit.Known("C05-sibling-hint-dumped-during-pass") {
+				// that finding (a hint split of the head file filling up during the pass) is excluded by construction: with a
+				// capacity above the number of records a generated pass can see, no split fills while a pass is under way
+				c.SplitCap = rapid.SampledFrom([]int64{32, 64, 1024}).Draw(t, "splitcap_c05_known")
+			}
 		}
 		return p
 	},
